@@ -359,6 +359,54 @@ func TestC19(t *testing.T) {
 			synctest.Wait()
 			st.Count("collapse_served", len(held)+again)
 		}
+		// slow collapse: a full window of pushes is answered with success, all of them slowly (more than
+		// a second) and at the same moment — the window shrinks but never below 1, and pushing goes on
+		if len(st.Violations) == 0 {
+			w2 := *w
+			window := pusher.CurrentFlowControl().MaxMessages
+			st.Set("slow_collapse_window", window)
+			if window >= 2 && window <= 60 {
+				var msgs []MsgSpec
+				for i := 0; i < window; i++ {
+					msgs = append(msgs, MsgSpec{N: 17000 + i})
+				}
+				w2.execInner(Op{K: "publish", Topic: "t", Msgs: msgs}, &Result{T: w.Now()})
+				var held []*pushReq
+				for len(held) < window {
+					r := next()
+					if r == nil {
+						time.Sleep(time.Second)
+						if r = next(); r == nil {
+							break
+						}
+					}
+					held = append(held, r)
+				}
+				for _, r := range held {
+					r.respond <- pushResp{code: 200, delay: 1100 * time.Millisecond}
+				}
+				time.Sleep(1200 * time.Millisecond)
+				synctest.Wait()
+				if wdw := pusher.CurrentFlowControl().MaxMessages; wdw < 1 || wdw > 1000 {
+					violate("window", fmt.Sprintf("after %d simultaneous slow successes with a window of %d the window is %d, outside 1..1000", len(held), window, wdw), fmt.Sprint(wdw))
+				} else {
+					// pushing goes on
+					w2.execInner(Op{K: "publish", Topic: "t", Msgs: []MsgSpec{{N: 17900}}}, &Result{T: w.Now()})
+					r := next()
+					if r == nil {
+						time.Sleep(2 * time.Second)
+						r = next()
+					}
+					if r == nil {
+						violate("stall", fmt.Sprintf("after %d simultaneous slow successes (window %d -> %d) the next message is not pushed", len(held), window, wdw), "slow-collapse")
+					} else {
+						r.respond <- pushResp{code: 204}
+						synctest.Wait()
+					}
+				}
+				st.Count("slow_collapse_served", len(held))
+			}
+		}
 		// long climb: batches of simultaneous fast successes
 		// until the window has had the chance to pass its cap
 		if len(st.Violations) == 0 {
